@@ -1,7 +1,6 @@
 package main
 
 import (
-	"bytes"
 	"encoding/hex"
 	"reflect"
 	"runtime"
@@ -106,6 +105,9 @@ func init() {
 // measured records the worst wall time and allocation of a decode call (C14: bounded time and memory).
 var statMaxNs, statMaxAlloc, statMaxAllocInput, statMaxNsInput int64
 
+// cumulative allocation per input octet, over inputs longer than 4 KiB (the linear clause of C14's memory bound)
+var statMaxAllocPerOctet, statMaxAllocPerOctetInput int64
+
 func measured(inputLen int, f func() error) error {
 	var m0, m1 runtime.MemStats
 	runtime.ReadMemStats(&m0)
@@ -117,8 +119,16 @@ func measured(inputLen int, f func() error) error {
 	if d > statMaxNs {
 		statMaxNs, statMaxNsInput = d, int64(inputLen)
 	}
-	if alloc > statMaxAlloc {
-		statMaxAlloc, statMaxAllocInput = alloc, int64(inputLen)
+	// TotalAlloc is CUMULATIVE allocation (garbage included), an upper bound of the memory in use. For a short input it must stay
+	// small whatever the counts and lengths inside claim (decode_max_alloc_bytes, inputs of at most 4 KiB); for a long input it
+	// may grow with the input, linearly (decode_max_alloc_per_octet): a message that really holds 16 384 IEs is decoded IE by IE
+	// with a few KiB of short-lived allocations each, while the heap does not grow.
+	if inputLen <= 4096 {
+		if alloc > statMaxAlloc {
+			statMaxAlloc, statMaxAllocInput = alloc, int64(inputLen)
+		}
+	} else if r := alloc / int64(inputLen); r > statMaxAllocPerOctet {
+		statMaxAllocPerOctet, statMaxAllocPerOctetInput = r, int64(inputLen)
 	}
 	return err
 }
@@ -131,6 +141,7 @@ func init() {
 		return []string{
 			"decode_max_ns " + i(statMaxNs) + " input_len " + i(statMaxNsInput),
 			"decode_max_alloc_bytes " + i(statMaxAlloc) + " input_len " + i(statMaxAllocInput),
+			"decode_max_alloc_per_octet " + i(statMaxAllocPerOctet) + " input_len " + i(statMaxAllocPerOctetInput),
 		}
 	})
 }
@@ -309,9 +320,10 @@ func aperEncDomain(e *emitter, roundTrip bool) {
 	// total of the inner encoding, not the length of the string inside): DOWNLINK NAS TRANSPORT with NAS-PDUs of 65533 /
 	// 131068 octets makes the NAS-PDU IE value 65536 / 131072 octets; neighbours on both sides
 	if !roundTrip || e.thorough() {
-		lens := []int{65532, 65533, 65534}
+		// … and strings of three and more length pieces (a 64K fragment, a 16K fragment and a rest; six 16K fragments)
+		lens := []int{65532, 65533, 65534, 81920, 81921, 98305}
 		if e.thorough() {
-			lens = []int{65529, 65530, 65531, 65532, 65533, 65534, 65535, 131066, 131067, 131068, 131069, 131070}
+			lens = []int{65529, 65530, 65531, 65532, 65533, 65534, 65535, 81919, 81920, 81921, 98304, 98305, 131066, 131067, 131068, 131069, 131070, 147457}
 		}
 		for _, n := range lens {
 			pdu := dlNasTransportPdu(n)
@@ -346,9 +358,9 @@ func aperEncDomain(e *emitter, roundTrip bool) {
 	}
 	// 1e. long lists (see manyIEs)
 	{
-		counts := []int{4098}
+		counts := []int{4098, 16384}
 		if e.thorough() {
-			counts = []int{256, 4096, 4097, 4098, 9000, 16383}
+			counts = []int{256, 4096, 4097, 4098, 9000, 16383, 16384, 16385, 30000, 65535}
 		}
 		for _, n := range counts {
 			emit("NGAPPDU", reflect.ValueOf(manyIEs(n)), false)
@@ -391,6 +403,122 @@ func aperEncDomain(e *emitter, roundTrip bool) {
 	aperSynEnc(e, g, roundTrip)
 }
 
+// ---- structural mutations of an NGAP PDU ------------------------------------------------------------------------------------
+//
+// Layout of every NGAP PDU in ALIGNED PER: choice octet, procedure code, criticality octet, length L of the message value (an
+// open type), then the value: one octet holding the extension bit of the message SEQUENCE, the IE count (2 octets), and per IE:
+// id (2 octets), criticality octet, length of the IE value (an open type), the value.
+type ngapIE struct{ off, lenOff, lenSize, l, valOff int }
+
+func perLen(b []byte, off int) (n, size int, ok bool) {
+	if off >= len(b) {
+		return 0, 0, false
+	}
+	if b[off]&0x80 == 0 {
+		return int(b[off]), 1, true
+	}
+	if b[off]&0x40 == 0 && off+1 < len(b) {
+		return int(b[off]&0x3f)<<8 | int(b[off+1]), 2, true
+	}
+	return 0, 0, false // fragmented
+}
+
+func perLenEnc(n int) []byte {
+	if n < 128 {
+		return []byte{byte(n)}
+	}
+	return []byte{0x80 | byte(n>>8), byte(n)}
+}
+
+func ngapWalk(b []byte) (L, lSize, count int, ies []ngapIE, ok bool) {
+	L, lSize, ok = perLen(b, 3)
+	if !ok || 3+lSize+L != len(b) || L < 3 {
+		return 0, 0, 0, nil, false
+	}
+	v := 3 + lSize
+	count = int(b[v+1])<<8 | int(b[v+2])
+	off := v + 3
+	for k := 0; k < count; k++ {
+		if off+3 >= len(b) {
+			return 0, 0, 0, nil, false
+		}
+		l, ls, ok2 := perLen(b, off+3)
+		if !ok2 || off+3+ls+l > len(b) {
+			return 0, 0, 0, nil, false
+		}
+		ies = append(ies, ngapIE{off, off + 3, ls, l, off + 3 + ls})
+		off += 3 + ls + l
+	}
+	return L, lSize, count, ies, off == len(b)
+}
+
+// ngapAssemble rebuilds a PDU from its three header octets, an IE count and the IEs' octets
+func ngapAssemble(hdr []byte, ext byte, count int, ies [][]byte, trail []byte) []byte {
+	val := []byte{ext, byte(count >> 8), byte(count)}
+	for _, ie := range ies {
+		val = append(val, ie...)
+	}
+	if len(val) >= 16384 {
+		return nil
+	}
+	out := append(append([]byte{}, hdr...), perLenEnc(len(val))...)
+	return append(append(out, val...), trail...)
+}
+
+// ngapLies: variants of a well-formed PDU in which one thing is untrue while the message length, and (where they are kept) the
+// IE lengths, stay consistent with the octets present — what a whole-message truncation or a flipped bit does not produce:
+//   an IE value cut short with its own length and the message length adjusted (the component inside now needs more octets than
+//   its open type holds); the same with the cut octets left BEHIND the message in the datagram (a reader that runs past the end
+//   of the open type finds them); an IE count above / below the IEs present; one more IE of an id the message's table does
+//   not have (a later release of the protocol), criticality ignore.
+func ngapLies(e *emitter, b []byte) (out [][]byte) {
+	_, lSize, count, ies, ok := ngapWalk(b)
+	if !ok || count == 0 {
+		return nil
+	}
+	hdr, ext := b[:3], b[3+lSize]
+	raw := func() [][]byte {
+		var r [][]byte
+		for _, ie := range ies {
+			r = append(r, append([]byte{}, b[ie.off:ie.valOff+ie.l]...))
+		}
+		return r
+	}
+	add := func(c []byte) {
+		if c != nil {
+			out = append(out, c)
+		}
+	}
+	k := e.rng.Intn(count)
+	ie := ies[k]
+	if ie.l > 0 {
+		for _, nl := range []int{0, ie.l / 2, ie.l - 1} {
+			if nl >= ie.l {
+				continue
+			}
+			r := raw()
+			r[k] = append(append(append([]byte{}, b[ie.off:ie.off+3]...), perLenEnc(nl)...), b[ie.valOff:ie.valOff+nl]...)
+			add(ngapAssemble(hdr, ext, count, r, nil))
+			if k == count-1 {
+				add(ngapAssemble(hdr, ext, count, r, b[ie.valOff+nl:ie.valOff+ie.l])) // the cut octets follow the message
+			}
+		}
+	}
+	add(ngapAssemble(hdr, ext, count+1, raw(), nil))
+	add(ngapAssemble(hdr, ext, count+2, raw(), nil))
+	if count > 1 {
+		add(ngapAssemble(hdr, ext, count-1, raw(), nil))
+	}
+	for _, id := range []int{110, 0xfffe} {
+		val := []byte{0x18, 0x00, 0x8b, 0x00, 0x01, 0x02}
+		unk := append([]byte{byte(id >> 8), byte(id), 0x40}, append(perLenEnc(len(val)), val...)...)
+		add(ngapAssemble(hdr, ext, count+1, append(raw(), unk), nil))
+		// in front of the others as well
+		add(ngapAssemble(hdr, ext, count+1, append([][]byte{unk}, raw()...), nil))
+	}
+	return out
+}
+
 // dlNasTransportPdu: DOWNLINK NAS TRANSPORT (AMF-UE-NGAP-ID 1, RAN-UE-NGAP-ID 1) with a NAS-PDU of n octets
 func dlNasTransportPdu(n int) ngapType.NGAPPDU {
 	pdu := ngapType.NGAPPDU{Present: ngapType.NGAPPDUPresentInitiatingMessage}
@@ -416,7 +544,12 @@ func dlNasTransportPdu(n int) ngapType.NGAPPDU {
 	})
 	add(ngapType.ProtocolIEIDNASPDU, func(ie *ngapType.DownlinkNASTransportIEs) {
 		ie.Value.Present = ngapType.DownlinkNASTransportIEsPresentNASPDU
-		ie.Value.NASPDU = &ngapType.NASPDU{Value: bytes.Repeat([]byte{0x5a}, n)}
+		// content that differs by position (a copy taken from the wrong offset shows)
+		b := make([]byte, n)
+		for i := range b {
+			b[i] = byte(i*7 + i>>8 + i>>16)
+		}
+		ie.Value.NASPDU = &ngapType.NASPDU{Value: b}
 	})
 	im.Value.DownlinkNASTransport = m
 	pdu.InitiatingMessage = im
@@ -467,9 +600,9 @@ func aperDecDomain(e *emitter) {
 	// long lists that are really there: an NG SETUP REQUEST whose ProtocolIE container (SIZE(0..65535)) holds thousands of
 	// (small) IEs; counts around 4096 and well above (growth strategies of the element slice, 12-bit counters)
 	{
-		counts := []int{4097, 4098, 5000}
+		counts := []int{4097, 4098, 5000, 16384}
 		if e.thorough() {
-			counts = []int{255, 256, 257, 1024, 2048, 4095, 4096, 4097, 4098, 5000, 9000, 16383, 16384, 20000}
+			counts = []int{255, 256, 257, 1024, 2048, 4095, 4096, 4097, 4098, 5000, 9000, 16383, 16384, 16385, 20000, 65535}
 		}
 		for _, n := range counts {
 			if b, err := ngap.Encoder(manyIEs(n)); err == nil {
@@ -531,6 +664,12 @@ func aperDecDomain(e *emitter) {
 		// appended garbage
 		if e.rng.Intn(4) == 0 {
 			dec(name, append(append([]byte{}, b...), e.bytes(1+e.rng.Intn(4))...))
+		}
+		// structural lies that keep every OUTER length consistent (see ngapLies)
+		if name == "NGAPPDU" {
+			for _, c := range ngapLies(e, b) {
+				dec(name, c)
+			}
 		}
 	}
 	// head sweep of leaf types: every value of the first octet (extension bit, large-form bit of an extension index, first bits of
